@@ -56,6 +56,124 @@ fn bools_text(preds: &[TokenStream], flags: u32) -> Result<String, MErr> {
     Ok(v.join(", "))
 }
 
+/// Interprets the cfg-probing `macro_rules!` chain emitted by `generate_cfg_checks_*` (which the
+/// real pipeline hands to rustc): starting from `()`, each step macro has one definition under
+/// `#[cfg(p)]` and one under `#[cfg(not(p))]`; the active one rewrites the boolean list according to
+/// its transcriber and calls the next step. Returns the list that reaches `__impl_ecs_*`.
+pub fn interpret_probing_chain(chain: &TokenStream, name: &str, flags: u32) -> Result<Vec<bool>, MErr> {
+    let mut toks = Vec::new();
+    flatten(chain, &mut toks);
+    // collect definitions: (macro name, predicate text, negated, bool-list template tokens, next macro name)
+    struct Def {
+        name: String,
+        pred: String,
+        template: Vec<String>,
+        next: String,
+    }
+    let mut defs: Vec<Def> = Vec::new();
+    let mut i = 0;
+    while i + 3 < toks.len() {
+        if toks[i] == "#" && toks[i + 1] == "[" && toks[i + 2] == "cfg" && toks[i + 3] == "(" {
+            let close = matching(&toks, i + 3).ok_or_else(|| MErr::Tool("unbalanced cfg attribute in probing chain".into()))?;
+            let pred = toks[i + 4..close].join("");
+            // find the macro_rules! that follows
+            let mut j = close;
+            while j + 2 < toks.len() && !(toks[j] == "macro_rules" && toks[j + 1] == "!") {
+                j += 1;
+            }
+            if j + 3 >= toks.len() {
+                break;
+            }
+            let mname = toks[j + 2].clone();
+            let body_open = j + 3;
+            let body_close = matching(&toks, body_open).ok_or_else(|| MErr::Tool("unbalanced macro body in probing chain".into()))?;
+            // transcriber: after `=>` `{` ... NEXT ! ( ( template ) , ...
+            let arrow = (body_open..body_close).find(|k| toks[*k] == "=" && toks[*k + 1] == ">").ok_or_else(|| MErr::Tool("no => in probing macro".into()))?;
+            let bang = (arrow..body_close).find(|k| toks[*k] == "!" && toks[*k + 1] == "(" && toks[*k + 2] == "(").ok_or_else(|| MErr::Tool("no next-step invocation in probing macro".into()))?;
+            let next = toks[bang - 1].clone();
+            let t_open = bang + 2;
+            let t_close = matching(&toks, t_open).ok_or_else(|| MErr::Tool("unbalanced template".into()))?;
+            defs.push(Def { name: mname, pred, template: toks[t_open + 1..t_close].to_vec(), next });
+            i = body_close;
+        } else {
+            i += 1;
+        }
+    }
+    let mut bools: Vec<bool> = Vec::new();
+    let mut cur = format!("__cfg_ecs_{}_0", name);
+    let finish = format!("__impl_ecs_{}", name);
+    let mut steps = 0;
+    while cur != finish {
+        steps += 1;
+        if steps > 64 {
+            return Err(MErr::Tool("probing chain does not terminate".into()));
+        }
+        // exactly one definition of `cur` is active under the assignment
+        let mut active: Vec<&Def> = Vec::new();
+        for d in defs.iter().filter(|d| d.name == cur) {
+            let (neg, inner) = if d.pred.starts_with("not(") && d.pred.ends_with(')') && eval_pred_text(&d.pred, flags).is_none() {
+                (true, d.pred[4..d.pred.len() - 1].to_string())
+            } else {
+                (false, d.pred.clone())
+            };
+            // `not(p)` definitions: p itself may be one of our `not(..)` forms, so try the whole text first
+            let truth = match eval_pred_text(&d.pred, flags) {
+                Some(t) if !neg => t,
+                _ => !eval_pred_text(&inner, flags).ok_or_else(|| MErr::Tool(format!("cannot evaluate predicate '{}' in probing chain", d.pred)))?,
+            };
+            if truth {
+                active.push(d);
+            }
+        }
+        if active.len() != 1 {
+            return Err(viol(&["C16"], format!("cfg probing chain: step {} has {} active definitions under flags {:#b}", cur, active.len(), flags)));
+        }
+        let d = active[0];
+        // expand the template: `$ ( $ bools , ) *`, `$ ( , $ bools ) *`, literals
+        let mut out: Vec<bool> = Vec::new();
+        let t = &d.template;
+        let mut k = 0;
+        while k < t.len() {
+            if t[k] == "$" && k + 1 < t.len() && t[k + 1] == "(" {
+                let c = matching(t, k + 1).ok_or_else(|| MErr::Tool("unbalanced repetition in template".into()))?;
+                if !t[k + 2..c].iter().any(|x| x == "bools") {
+                    return Err(MErr::Tool("unknown repetition in probing template".into()));
+                }
+                out.extend(bools.iter().copied());
+                k = c + 1;
+                if k < t.len() && (t[k] == "*" || t[k] == "+") {
+                    k += 1;
+                }
+            } else if t[k] == "true" {
+                out.push(true);
+                k += 1;
+            } else if t[k] == "false" {
+                out.push(false);
+                k += 1;
+            } else if t[k] == "," {
+                k += 1;
+            } else {
+                return Err(MErr::Tool(format!("unknown token '{}' in probing template", t[k])));
+            }
+        }
+        bools = out;
+        cur = d.next.clone();
+    }
+    Ok(bools)
+}
+
+/// The boolean list the real pipeline would deliver: through the generated probing chain.
+fn chain_bools(chain: &TokenStream, name: &str, preds: &[TokenStream], flags: u32) -> Result<String, MErr> {
+    if preds.is_empty() {
+        return Ok(String::new());
+    }
+    let got = interpret_probing_chain(chain, name, flags)?;
+    if got.len() != preds.len() {
+        return Err(viol(&["C16"], format!("cfg probing chain delivers {} states for {} distinct predicates", got.len(), preds.len())));
+    }
+    Ok(got.iter().map(|b| b.to_string()).collect::<Vec<_>>().join(", "))
+}
+
 fn parse_ts(s: &str) -> Result<TokenStream, MErr> {
     s.parse::<TokenStream>().map_err(|e| MErr::Tool(format!("cannot tokenize generated input: {} in `{}`", e, s)))
 }
@@ -72,7 +190,9 @@ pub fn run_world(decl: &WorldDecl, flags: u32) -> Result<Result<DataWorld, Strin
     // the expansion of the probing chain is scanned too (C18a)
     let probing = generate::generate_cfg_checks_outer("world", &first, body.clone());
     scan_unsafe(&probing, "cfg probing chain of ecs_world!")?;
-    let decorated = parse_ts(&format!("({}), {{ {} }}", bools_text(&preds, flags)?, body))?;
+    // the states travel through the generated macro_rules! chain, exactly as under rustc
+    let _ = bools_text(&preds, flags)?;
+    let decorated = parse_ts(&format!("({}), {{ {} }}", chain_bools(&probing, "world", &preds, flags)?, body))?;
     let second = match syn::parse2::<ParseCfgDecorated<ParseEcsWorld>>(decorated) {
         Ok(p) => p,
         Err(e) => return Ok(Err(e.to_string())),
@@ -332,7 +452,12 @@ pub fn check_query(dw: &DataWorld, rw: &RWorld, q: &Query, flags: u32) -> Result
         },
     };
     scan_unsafe(&probing, "cfg probing chain of a query macro")?;
-    let decorated = parse_ts(&format!("({}), {{ {} }}", bools_text(&preds, flags)?, raw))?;
+    let chain_name = match q.kind {
+        QKind::Find | QKind::FindBorrow => "find",
+        QKind::Iter | QKind::IterBorrow => "iter",
+        QKind::IterDestroy => "iter_destroy",
+    };
+    let decorated = parse_ts(&format!("({}), {{ {} }}", chain_bools(&probing, chain_name, &preds, flags)?, raw))?;
     let result: Result<TokenStream, String> = match q.kind {
         QKind::Find => syn::parse2::<ParseCfgDecorated<ParseQueryFind>>(decorated).and_then(|p| generate::generate_query_find(FetchMode::Mut, p)),
         QKind::FindBorrow => syn::parse2::<ParseCfgDecorated<ParseQueryFind>>(decorated).and_then(|p| generate::generate_query_find(FetchMode::Borrow, p)),
